@@ -563,8 +563,11 @@ impl FlatGraph {
                 lines = 3;
             }
             for line in 1..lines {
+                // A prefetch hint may name any address, but `ptr.add` must stay inside the
+                // allocation: with a 64-byte record the second/third line of the last node
+                // lies past the end of `data`, so the offset is computed without that promise.
                 _mm_prefetch(
-                    ptr.add(line.saturating_mul(PREFETCH_CACHELINE_BYTES)),
+                    ptr.wrapping_add(line.saturating_mul(PREFETCH_CACHELINE_BYTES)),
                     _MM_HINT_T0,
                 );
             }
